@@ -13,6 +13,9 @@
 //   v <progs> <sched>                   ff_unbounded_queue<long>  (elements copied, released)
 //   s <slotsize> <ops>                  uSWSR_Ptr_Buffer alone, sequentially
 //   f <np> <nc> <ops> <nq>              free-running threads, summary line
+//   k                                   the queue's default geometry: CONST nq=.. seg=..
+//   b <w|q> <nq> <seg> <np> <N>         backlog: np threads push N elements in all (concurrently if
+//                                       np > 1), then one thread pops N+1 times; summary line
 // progs: threads separated by '/', operations by ',':  p<value> | c ;  "-" = empty program
 // sched: one hex digit (thread id) per action; "-" = empty.  After the schedule the unfinished
 // threads run round-robin, one action each per pass, for at most FUEL passes.
@@ -140,7 +143,8 @@ static inline void verif_set(atomic_long_t *l, long i)
 }
 struct verif_slot : public uSWSR_Ptr_Buffer
 {
-	verif_slot(unsigned long n) : uSWSR_Ptr_Buffer(n) {}
+	// whatever arguments the queue source passes to its slot buffers
+	template<typename... A> verif_slot(A&&... a) : uSWSR_Ptr_Buffer(std::forward<A>(a)...) {}
 	bool push(void *const d)
 	{
 		verif_yield();
@@ -460,6 +464,60 @@ static std::string run_free(int np, int nc, unsigned long ops, unsigned long nq)
 }
 
 //-------------------------------------------------------------------------------------------------
+// the defaults ff_unbounded_queue gets (protected enum of the queue class)
+struct Geometry : ff::uMPMC_Ptr_Queue
+{
+	static unsigned long nq() { return DEFAULT_NUM_QUEUES; }
+	static unsigned long seg() { return DEFAULT_uSPSC_SIZE; }
+};
+
+// N elements pending at once: producers first (payload = global index + 1, producer p owns the
+// indices congruent p mod np, pushed in increasing order), then N+1 pops by this thread
+static std::string run_backlog(Client *cl, int np, unsigned long n)
+{
+	g_sched = false;
+	g_abort.store(false);
+	std::atomic<unsigned long> pushed(0);
+	if (np <= 1)
+	{
+		for (unsigned long j(0); j < n; ++j)
+			if (cl->push(j + 1)) pushed.fetch_add(1);
+	}
+	else
+	{
+		std::vector<std::thread> thr;
+		for (int p(0); p < np; ++p)
+			thr.emplace_back([&, p] {
+				for (unsigned long j(p); j < n; j += np)
+					if (cl->push(j + 1)) pushed.fetch_add(1);
+			});
+		for (std::thread& t : thr)
+			t.join();
+	}
+	std::vector<unsigned char> seen(n + 2, 0);
+	std::vector<long> last(np < 1 ? 1 : np, -1);
+	unsigned long popped(0), empty(0), null(0), dup(0), ord(0), lost(0);
+	for (unsigned long j(0); j <= n; ++j)
+	{
+		unsigned long v(0);
+		if (!cl->pop(v)) { ++empty; continue; }
+		++popped;
+		if (v < 1 || v > n) { ++null; continue; }		// pop said true but delivered nothing usable
+		if (seen[v]++) ++dup;
+		const int p(np <= 1 ? 0 : static_cast<int>((v - 1) % np));
+		if (static_cast<long>(v) <= last[p]) ++ord;
+		if (np <= 1 && v != popped) ++ord;			// single producer: exact FIFO position
+		last[p] = static_cast<long>(v);
+	}
+	for (unsigned long v(1); v <= n; ++v)
+		if (!seen[v]) ++lost;
+	std::ostringstream os;
+	os << "BACKLOG pushed=" << pushed.load() << " popped=" << popped << " empty=" << empty << " null=" << null
+		<< " dup=" << dup << " lost=" << lost << " ord=" << ord;
+	return os.str();
+}
+
+//-------------------------------------------------------------------------------------------------
 int main()
 {
 	std::string line;
@@ -494,6 +552,21 @@ int main()
 				unsigned long sz; std::string ops;
 				is >> sz >> ops;
 				out = run_slot(sz, ops == "-" ? std::string() : ops);
+			}
+			else if (mode == "k")
+			{
+				std::ostringstream os;
+				os << "CONST nq=" << Geometry::nq() << " seg=" << Geometry::seg();
+				out = os.str();
+			}
+			else if (mode == "b")
+			{
+				std::string kind; unsigned long nq, seg, n; int np;
+				is >> kind >> nq >> seg >> np >> n;
+				g_deref = false;
+				std::unique_ptr<Client> cl;
+				if (kind == "w") cl.reset(new PtrClient); else cl.reset(new RawClient(nq, seg));
+				out = run_backlog(cl.get(), np, n);
 			}
 			else if (mode == "f")
 			{
